@@ -266,6 +266,11 @@ func (c *Client) do2(ctx context.Context, r *Req, run func() (store.Obj, error),
 	switch m.fault {
 	case "":
 		return finish(w.exec(a, c.cl, r, run))
+	case "policy":
+		r.Err = m.err
+		r.StoreErr = m.err
+		w.record(a, r)
+		return m.err
 	case "err-before":
 		r.Fault = "err-before"
 		r.Err = m.err
@@ -484,6 +489,15 @@ func simError(kind string, r *Req) error {
 func (w *World) doResume(a *Actor) {
 	r := a.pending
 	msg := resumeMsg{kind: msgProceed}
+	if len(w.Denied) > 0 && !r.Cached && r.IsWrite() && r.Verb != "delete" && w.Denied[r.Cluster+"|"+r.Key().String()] {
+		// not a fault: the environment's standing answer to this request, dry run or not
+		w.Stats.Probe("admission-policy-denied-request")
+		msg.fault = "policy"
+		msg.err = apierrors.NewForbidden(schema.GroupResource{Group: r.GVK.Group, Resource: strings.ToLower(r.GVK.Kind) + "s"}, r.Name, errors.New("denied by simulated admission policy"))
+		a.resume <- msg
+		w.waitSettled()
+		return
+	}
 	if w.Cfg.SweepKind != "" && !r.Cached {
 		n := w.sweepCount
 		w.sweepCount++
